@@ -206,6 +206,36 @@ fn run(ctx: &mut Ctx) {
             }
         });
     }
+    // a generic inherent block and an instance-specific block that define one method name with DIFFERENT signatures,
+    // in both declaration orders: the dot call on the specialised receiver has the specialised signature (well-typed
+    // uses accepted with consistent IR, uses at the other block's result type rejected)
+    for (i, generic_first) in [true, false].into_iter().enumerate() {
+        if !ctx.mine(72_000 + i as u64) {
+            continue;
+        }
+        let g = "impl[T] Bx[T] {\n    fn describe(self: Bx[T]) -> int32 { 1 }\n    fn arity(self: Bx[T], k: int32) -> int32 { k }\n}\n";
+        let k = "impl Bx[string] {\n    fn describe(self: Bx[string]) -> string { self.it }\n    fn arity(self: Bx[string]) -> int32 { 0 }\n}\n";
+        let head = format!("struct Bx[T] {{ it: T }}\n{}{}", if generic_first { g } else { k }, if generic_first { k } else { g });
+        let good = format!("{}fn main() -> unit {{\n    let b: Bx[string] = Bx {{ it: \"s\" }};\n    let s: string = b.describe();\n    let c: Bx[int32] = Bx {{ it: 1 }};\n    let n: int32 = c.describe();\n    let m: int32 = c.arity(4) + b.arity();\n    let _ = string_println(s + int32_to_string(n + m));\n    ()\n}}\n", head);
+        let bads: [(&str, String); 3] = [
+            ("specialised receiver used at the generic block's result type", format!("{}fn main() -> unit {{\n    let b: Bx[string] = Bx {{ it: \"s\" }};\n    let n: int32 = b.describe();\n    ()\n}}\n", head)),
+            ("other instance used at the specialised block's result type", format!("{}fn main() -> unit {{\n    let c: Bx[int32] = Bx {{ it: 1 }};\n    let s: string = c.describe();\n    ()\n}}\n", head)),
+            ("specialised receiver called with the generic block's argument list", format!("{}fn main() -> unit {{\n    let b: Bx[string] = Bx {{ it: \"s\" }};\n    let n: int32 = b.arity(4);\n    ()\n}}\n", head)),
+        ];
+        let order = if generic_first { "generic-then-specialised" } else { "specialised-then-generic" };
+        let label = format!("inherent-overlap-signatures/{}", order);
+        ctx.case(&label.clone(), |c| {
+            if ir_monitor(c, &label, &good) {
+                c.count("overlap_signature_programs_checked", 1);
+            } else {
+                c.violation(format!("well-typed-rejected:inherent-overlap:{}", order), "a well-typed use of a generic and a specialised inherent block is rejected".to_string(), json!({"label": label, "source": good}));
+            }
+            for (what, bad) in bads.iter() {
+                let inj = inject::Injection { kind: "inherent-overlap", description: format!("{} ({})", what, order) };
+                check_injection(c, &label, bad, &inj);
+            }
+        });
+    }
     // the closure product of C08 (body shape x capture kind x flow) under the IR monitors: an unbound captured
     // variable or a closure typed at its unlifted function type shows in ANF
     {
